@@ -795,6 +795,7 @@ func (m *Mon) stepC06C07(sc *StepCtx, si stepInfo) {
 	be := sc.block()
 	// how many contexts of each consumer are due in this block (for the exact funds check)
 	due := map[string]int{}
+	dueCtx := map[string]bool{}
 	for id, rc := range pre.Contexts {
 		isDue := false
 		for _, h := range pre.NewQ[id] {
@@ -809,6 +810,7 @@ func (m *Mon) stepC06C07(sc *StepCtx, si stepInfo) {
 		}
 		if isDue {
 			due[hexs(rc.Consumer)]++
+			dueCtx[id] = true
 		}
 	}
 	for id, rc := range pre.Contexts {
@@ -819,7 +821,17 @@ func (m *Mon) stepC06C07(sc *StepCtx, si stepInfo) {
 		advanced := prc.BatchCounter == rc.BatchCounter+1
 		pausedNow := rc.State == types.RUNNING && prc.State == types.PAUSED
 		if !advanced && !pausedNow {
+			// a running context whose batch was due in this block and that is still running afterwards
+			// has been given that batch (issued or skipped: counter + 1); if its consumer could not
+			// pay it has been paused. "Nothing happened" is not among the outcomes.
+			if dueCtx[id] && rc.State == types.RUNNING && prc.State == types.RUNNING {
+				m.hit("C09", "due-context-handled", "untouched")
+				m.fail(sc, "C09", "transition", "due-but-untouched", "context %.16s was running and due for a batch at block %d; after the block it is still running, its batch counter did not move and it was not paused", id, be.H)
+			}
 			continue
+		}
+		if dueCtx[id] {
+			m.hit("C09", "due-context-handled", fmt.Sprintf("advanced%v/paused%v", advanced, pausedNow))
 		}
 		named := rc
 		if t := m.ctxs[id]; t != nil && t.Providers != nil && !sameStrings(t.Providers, provHex(rc.Providers)) {
@@ -1184,6 +1196,12 @@ func (m *Mon) stepC09(sc *StepCtx, si stepInfo) {
 		}
 		if b.BatchCounter == a.BatchCounter+1 {
 			m.hit("C09", "counter-advance", fmt.Sprintf("%s/pre-%s/post-%s", cls, a.State, b.State))
+			if !a.Repeated && a.BatchCounter >= 1 {
+				if t := m.ctxs[id]; t == nil || !t.Restarted {
+					// a context that does not repeat has one batch; after it the context is over
+					m.fail(sc, "C09", "counter-step", "one-shot-second-batch", "context %.16s does not repeat but is given batch %d", id, b.BatchCounter)
+				}
+			}
 			if !sc.IsBlock() && si.modSvcCall == nil {
 				m.fail(sc, "C09", "counter-advance-only-at-block-end", cls, "context %.16s batch counter advanced in %s", id, sc.Step.Desc)
 			}
